@@ -13,6 +13,39 @@ EXPLANATION = ('C14: decides that the literal branch of async_resolve cannot rea
 R = 'sim::asio::ip::basic_resolver'
 
 
+def _expansion_locals(fn, e, depth=0, seen=None):
+    """declarations of the single-definition locals an expression reads (transitively)"""
+    seen = {} if seen is None else seen
+    for x in walk(e):
+        if x['k'] == 'ref' and x.get('dk') == 'local' and x.get('did') not in seen and depth < 4:
+            for n in fn.all_nodes():
+                if n['k'] == 'decl':
+                    for v in n['vars']:
+                        if v.get('did') == x['did'] and v.get('init') is not None and len(q.local_defs(fn, x['did'])) == 1:
+                            seen[x['did']] = v
+                            _expansion_locals(fn, v['init'], depth + 1, seen)
+    return list(seen.values())
+
+
+def _expanded(fn, e):
+    """all nodes of e and of the initialisers of the single-definition locals it reads (transitively)"""
+    out = list(walk(e)) if is_node(e) else []
+    for v in _expansion_locals(fn, e):
+        out += list(walk(v['init']))
+    return out
+
+
+def _sum_terms(fn, e, depth=0):
+    e = q.strip_casts(e)
+    while is_node(e) and e['k'] == 'construct' and len(e.get('args') or []) == 1:
+        e = q.strip_casts(e['args'][0])
+    if is_node(e) and e['k'] == 'call' and e.get('opc') == '+':
+        return _sum_terms(fn, e['args'][0], depth) + _sum_terms(fn, e['args'][1], depth)
+    if is_node(e) and e['k'] == 'bin' and e['op'] == '+':
+        return _sum_terms(fn, e['lhs'], depth) + _sum_terms(fn, e['rhs'], depth)
+    return [e]
+
+
 def check(run):
     fx = run.fx
     ars = fx.fn(R + '::async_resolve')
@@ -21,7 +54,8 @@ def check(run):
     for ar in ars:
         run.touch(ar)
         # canonical names for the locals the rules talk about, bound by what initialises them
-        ctv = q.alias_local(ar, 'completion_time', init_re=r'hostname_lookup\(')
+        ctv = q.alias_local(ar, 'completion_time', pred=lambda v: 'time_point' in ar.cty(v['t']) and any(
+            x['k'] == 'call' and (q.callee_name(x) or '').endswith('hostname_lookup') for x in _expanded(ar, v['init'])))
         if ctv is not None:
             used = q.locals_in(ctv['init'])
             q.alias_local(ar, 'start_time', pred=lambda v: v.get('did') in used and 'time_point' in ar.ty(v['t']))
@@ -105,7 +139,9 @@ def check(run):
             run.clause('compounding: the start time of a host-name lookup is now() when idle and otherwise the completion time of the LAST queued entry')
         st = [v for v in [q.local_var(ar, 'start_time')] if v]
         ct = [v for v in [q.local_var(ar, 'completion_time')] if v]
-        if not st or not ct or 'start_time' not in q.render(ar, ct[0]['init']):
+        exp = _expanded(ar, ct[0]['init']) if ct else []
+        reads_start = bool(st) and any(x['k'] == 'ref' and x.get('did') == st[0]['did'] for x in exp)
+        if not st or not ct or not reads_start:
             run.unrecognised('R5', 'compounding-origin', '%s<%s>' % (ar.norm, tag), ar.loc(), 'start_time / completion_time idiom not found')
         else:
             e = q.strip_casts(st[0]['init'])
@@ -134,8 +170,27 @@ def check(run):
                               'the start time is derived from m_timer (%s): the timer is armed for the FRONT entry and keeps a stale expiry after cancel(), so lookups overlap or queue behind an aborted one' % txt)
             else:
                 run.unrecognised('R5', 'compounding-origin', '%s<%s>' % (ar.norm, tag), ar.loc(), 'start time computed as %s: not a recognised "last queued entry" idiom' % txt)
-            ctx = q.render(ar, ct[0]['init'])
-            run.check(ctx.startswith('(start_time + ') and 'hostname_lookup' in ctx, 'R5', 'completion-is-start-plus-latency', '%s<%s>' % (ar.norm, tag), ar.loc(), 'completion time is not start_time + hostname_lookup(...)', 'start_time + configured latency')
+            # completion = start + the latency the configuration returned, at the clock's own resolution
+            top = q.strip_casts(ct[0]['init'])
+            terms = _sum_terms(ar, top)
+            has_start = any(is_node(t) and t['k'] == 'ref' and t.get('did') == st[0]['did'] for t in terms)
+            lookups = [t for t in terms if any(x['k'] == 'call' and (q.callee_name(x) or '').endswith('hostname_lookup') for x in _expanded(ar, t))]
+            run.check(has_start and len(lookups) == 1 and len(terms) == 2, 'R5', 'completion-is-start-plus-latency', '%s<%s>' % (ar.norm, tag), ar.loc(),
+                      'completion time is not start_time + hostname_lookup(...): %s' % q.render(ar, top)[:80], 'start_time + configured latency')
+            TICK = 'std::ratio<1, 1000000000>'
+            for x in exp:
+                if x['k'] == 'call' and (q.callee_name(x) or '').endswith('duration_cast'):
+                    ty = ar.cty(x)
+                    run.check(TICK in ty, 'R14', 'latency-resolution', '%s<%s>: %s' % (ar.norm, tag, q.render(ar, x)[:50]), ar.loc(x),
+                              'the configured lookup latency is cast to %s, coarser than the clock tick: its sub-unit part is dropped (a 1500us lookup completes after 1000us), and the error compounds along the queue' % ty,
+                              'kept in clock ticks')
+                elif x['k'] == 'decl_ty':
+                    pass
+            for v in _expansion_locals(ar, ct[0]['init']):
+                ty = ar.cty(v['t']) if isinstance(v.get('t'), int) else ''
+                if 'std::chrono::duration<' in ty:
+                    run.check(TICK in ty, 'R14', 'latency-resolution', '%s<%s>: local %s' % (ar.norm, tag, v.get('name')), ar.loc(),
+                              'the lookup latency is held in a local of type %s, coarser than the clock tick: the sub-unit part of the configured latency is dropped' % ty, 'kept in clock ticks')
 
     for ol in fx.fn(R + '::on_lookup'):
         run.touch(ol)
